@@ -616,7 +616,12 @@ fn translate_unit(repo: &Path, u: &Unit, reg: &mut Registry) -> Res<String> {
                 reg.fns.insert(key.to_string(), FnSig { lean: lean.to_string(), params: ps, ret: r, fallible: *fallible, muts: muts.iter().map(|m| m.to_string()).collect() });
             }
             Sel::ExternConst(key, ty, lean) => {
-                let t = int_ty(ty).map(Ty::Int).ok_or(format!("ExternConst {}: not an integer type", key))?;
+                // builder V: a constant of a registered enum type (`F::JOIN_DR_500KHZ: DR`)
+                let t = match int_ty(ty) {
+                    Some(i) => Ty::Int(i),
+                    None if reg.enums.contains_key(*ty) => Ty::Named(ty.to_string()),
+                    None => return Err(format!("ExternConst {}: not an integer type", key)),
+                };
                 reg.consts.insert(key.to_string(), (t, lean.to_string()));
             }
             Sel::Newtype(name) => {
